@@ -543,7 +543,7 @@ def sccs(g):
 def check_recursion(chk, F):
     R = "R11.5"
     chk.rule(R, "every recursive cycle in the crate's call graph (MIR, resolved callees) that is reachable from a parser, "
-                "the script decoder, the interpreter, the PSBT finalizer or the planner consists of audited functions "
+                "the script decoder, the interpreter, the PSBT finalizer or the planner passes through an audited function "
                 "whose depth is bounded by the parser's pre-check (no new recursion over input-shaped data)")
     g = callgraph(F)
     entries = [p for p in g if any(k in p for k in ("from_str", "from_tree", "decode", "from_txdata", "iter_next",
@@ -561,16 +561,21 @@ def check_recursion(chk, F):
     chk.extra["R11.5_functions"] = len(g)
     chk.extra["R11.5_reachable"] = len(reach)
     chk.extra["R11.5_recursive_cycles"] = [sorted(c) for c in comps]
+    def short(v):
+        base = v.split("::{closure")[0]
+        name = base.split("::")[-1]
+        return name.split("{")[0].rstrip(":") or base.split("::")[-2]
     for comp in comps:
+        # every cycle must pass through an audited function (whose depth is bounded): a helper that merely sits on an
+        # audited cycle (extracted block, forwarding wrapper) adds no recursion of its own.  So: remove the audited
+        # functions and look for a cycle among the rest.
+        rest = set(v for v in comp if short(v) not in AUDITED_RECURSION)
+        sub = {v: [w for w in g.get(v, ()) if w in rest] for v in rest}
+        cyc = sccs(sub)
         for v in comp:
-            name = v.split("::")[-1]
-            name = name.split("{")[0].rstrip(":") or v.split("::")[-2]
-            base = v
-            if "{closure" in v:
-                base = v.split("::{closure")[0]
-                name = base.split("::")[-1]
-            chk.obligation(R, name in AUDITED_RECURSION, v, "recursive function %s (cycle of %d) reachable from untrusted "
-                           "input is not in the audited set" % (v, len(comp)))
+            on_unaudited_cycle = any(v in c for c in cyc)
+            chk.obligation(R, not on_unaudited_cycle, v, "recursive function %s lies on a cycle (of %d functions) reachable from "
+                           "untrusted input that passes through no audited function" % (v, len(comp)))
     chk.floor(R, "call-graph size", len(g), 1500)
 
 
